@@ -10,38 +10,29 @@ open Numf
 let z = z_of_int
 let zi = int_of_z
 
-let rec triples = function
-  | a :: b :: c :: t -> ((a, b), c) :: triples t
-  | [] -> []
-  | _ -> failwith "triples"
-
-let rec chunks k = function
-  | [] -> []
-  | l -> take k l :: chunks k (drop k l)
-
+(* parsing over an array of tokens with a cursor (frames can carry 10^5..10^6 numbers:
+   no deep recursion on the token list) *)
+let toks : string array ref = ref [||]
+let pos = ref 0
+let next () = let t = !toks.(!pos) in incr pos; t
+let next_fl () = fl (next ())
+let next_int () = int_of_string (next ())
+let list_init n f = Array.to_list (Array.init n f)   (* Array.init evaluates f in index order *)
+let next_v3 () = let a = next_fl () in let b = next_fl () in let c = next_fl () in ((a, b), c)
 let opt s = if s = "none" then None else Some (fl s)
-
 let v3s ((a, b), c) = [hex a; hex b; hex c]
 
-let parse_probe toks =
-  match toks with
-  | n :: rest ->
-      let n = int_of_string n in
-      let locs = triples (Stdlib.List.map fl (take (3 * n) rest)) in
-      let rest = drop (3 * n) rest in
-      let dead = Stdlib.List.map (fun s -> s = "1") (take n rest) in
-      (locs, dead, drop n rest)
-  | [] -> failwith "probe"
+let parse_probe () =
+  let n = next_int () in
+  let locs = list_init n (fun _ -> next_v3 ()) in
+  let dead = list_init n (fun _ -> next () = "1") in
+  (locs, dead)
 
-let parse_frame toks =
-  match toks with
-  | m :: rest ->
-      let m = int_of_string m in
-      let tx = Stdlib.List.map (fun s -> z (int_of_string s)) (take m rest) in
-      let rest = drop m rest in
-      let rx = Stdlib.List.map (fun s -> z (int_of_string s)) (take m rest) in
-      (m, tx, rx, drop m rest)
-  | [] -> failwith "frame"
+let parse_frame () =
+  let m = next_int () in
+  let tx = list_init m (fun _ -> z (next_int ())) in
+  let rx = list_init m (fun _ -> z (next_int ())) in
+  (m, tx, rx)
 
 let show_move (r : float Registration.move_result) =
   let ((o, i), j) = r.Registration.mr_pcs in
@@ -51,31 +42,35 @@ let show_move (r : float Registration.move_result) =
 
 let () =
   iter_lines (fun line ->
-    match tokens line with
-    | "MV" :: rest ->
-        let pcs = Stdlib.List.map fl (take 9 rest) in
-        let cs = (match triples pcs with [o; i; j] -> ((o, i), j) | _ -> failwith "pcs") in
-        let (locs, dead, rest) = parse_probe (drop 9 rest) in
-        let (_, tx, rx, rest) = parse_frame rest in
-        let k = int_of_string (Stdlib.List.hd rest) in
-        let ds = Stdlib.List.map fl (take k (Stdlib.List.tl rest)) in
+    toks := Array.of_list (Stdlib.List.rev (Stdlib.List.rev_map (fun s -> s)
+              (Stdlib.List.filter (fun s -> s <> "") (String.split_on_char ' ' (String.trim line)))));
+    pos := 0;
+    match next () with
+    | "MV" ->
+        let o = next_v3 () in let i = next_v3 () in let j = next_v3 () in
+        let cs = ((o, i), j) in
+        let (locs, dead) = parse_probe () in
+        let (_, tx, rx) = parse_frame () in
+        let k = next_int () in
+        let ds = list_init k (fun _ -> next_fl ()) in
         (match Registration.move_probe numf (Registration.fit_line numf) cs tx rx dead locs ds with
          | Datatypes.Coq_inl e -> Printf.printf "E %d\n" (zi (Registration.reg_error_code e))
          | Datatypes.Coq_inr r -> print_endline (String.concat " " ("OK" :: show_move r)))
-    | "FP" :: start :: step :: num :: c :: tmin :: tmax :: rest ->
-        let num = int_of_string num in
-        let (locs, dead, rest) = parse_probe rest in
-        let (m, tx, rx, rest) = parse_frame rest in
-        let rows = chunks num (Stdlib.List.map fl (take (m * num) rest)) in
-        (match Registration.find_probe_loc numf (Registration.fit_line numf) (fl start) (fl step) (z num) rows
-                 tx rx dead locs (fl c) (opt tmin) (opt tmax) with
+    | "FP" ->
+        let start = next_fl () in let step = next_fl () in let num = next_int () in let c = next_fl () in
+        let tmin = opt (next ()) in let tmax = opt (next ()) in
+        let (locs, dead) = parse_probe () in
+        let (m, tx, rx) = parse_frame () in
+        let rows = list_init m (fun _ -> list_init num (fun _ -> next_fl ())) in
+        (match Registration.find_probe_loc numf (Registration.fit_line numf) start step (z num) rows
+                 tx rx dead locs c tmin tmax with
          | Datatypes.Coq_inl e -> Printf.printf "E %d\n" (zi (Registration.reg_error_code e))
          | Datatypes.Coq_inr (r, times) ->
              print_endline (String.concat " " ("OK" :: show_move r @ Stdlib.List.map hex times)))
-    | "FIT" :: k :: rest ->
-        let k = int_of_string k in
-        let xs = Stdlib.List.map fl (take k rest) in
-        let ds = Stdlib.List.map fl (take k (drop k rest)) in
+    | "FIT" ->
+        let k = next_int () in
+        let xs = list_init k (fun _ -> next_fl ()) in
+        let ds = list_init k (fun _ -> next_fl ()) in
         let (p1, p0) = Registration.fit_line numf xs ds in
         print_endline (hex p1 ^ " " ^ hex p0)
-    | _ -> failwith ("bad line: " ^ line))
+    | _ -> failwith ("bad line: " ^ String.sub line 0 (min 40 (String.length line))))
